@@ -197,6 +197,13 @@ def cases(tier, seed):
 		       'threads': rnd.choice([None, 1, 5, 16]), 'seed': rnd.randrange(10 ** 6)}
 
 
+def many_refs_cases(tier):
+	"""many references against small chunk sizes (every column must be written whatever the number of chunks)"""
+	for nr in (51, 52, 53, 97, 128, 200, 333) + ((1001, 2003) if tier != 'quick' else ()):
+		for cs in (10, 7, 3, 50, None):
+			yield {'kind': 'matrix', 'nq': 2, 'nr': nr, 'refs': 'array' if nr % 2 else 'list', 'queries': 'plain', 'ref_indices': None, 'chunksize': cs, 'out': 'given', 'seed': nr}
+
+
 def selection_cases(tier):
 	"""Small-scope exhaustive: EVERY index selection (any order, repeats allowed) of length <= L over 5 distinguishable references, x every chunk size."""
 	nr = 5
@@ -222,7 +229,7 @@ def selection_cases(tier):
 
 def bounded(tier, seed):
 	n, failures, sample = 0, [], []
-	for c in itertools.chain(cases(tier, seed), selection_cases(tier)):
+	for c in itertools.chain(cases(tier, seed), selection_cases(tier), many_refs_cases(tier)):
 		reps = 3 if (c.get('threads') and c['kind'] != 'chunks') else 1     # repeated runs under the dynamic schedule
 		for _ in range(reps):
 			r = run_case(c)
